@@ -1,6 +1,9 @@
-// mapcensus lists every `range` over a map-typed expression in the non-test files of the module's
-// keeper, types and module packages, and writes the census as a Coq data file. Ranging over a Go map
-// is the one place where the runtime may choose an order; each listed loop has to be order-insensitive.
+// mapcensus lists every `range` over a map-typed expression in the non-test files of the module's keeper, types,
+// module and simulation packages, classifies what its body does, and writes the census as a Coq data file.
+// Ranging over a Go map is the one place where the runtime chooses an order; a loop is order-insensitive when its
+// body (a) only writes entries of maps indexed by the loop's own key ("keyed"), and/or (b) only collects into slices
+// that are sorted afterwards in the same function ("collect_sorted"), calls nothing with an effect on the store,
+// the bank or the listeners, and has no early exit.  Everything else is reported as "other" with the reason.
 package main
 
 import (
@@ -19,8 +22,176 @@ import (
 type loop struct {
 	pkg, file, fn, expr string
 	idx                 int
-	calls               []string
-	assignsIndexed      bool // the body only writes m[k] = ... / appends
+	shapes              map[string]bool
+	reasons             []string // why the loop is not (only) of a safe shape
+	impure              []string // calls with an effect
+}
+
+type classifier struct {
+	info    *types.Info
+	rs      *ast.RangeStmt
+	fn      *ast.FuncDecl
+	keyObj  types.Object
+	l       *loop
+	collect map[types.Object]string
+}
+
+func (c *classifier) other(why string) { c.l.reasons = append(c.l.reasons, why) }
+
+func (c *classifier) inBody(o types.Object) bool {
+	return o != nil && o.Pos() >= c.rs.Body.Pos() && o.Pos() <= c.rs.Body.End()
+}
+
+func exprString(e ast.Expr) string {
+	var sb strings.Builder
+	printer.Fprint(&sb, token.NewFileSet(), e)
+	return sb.String()
+}
+
+func (c *classifier) lhs(e ast.Expr, st *ast.AssignStmt) {
+	switch x := e.(type) {
+	case *ast.Ident:
+		if x.Name == "_" {
+			return
+		}
+		o := c.info.ObjectOf(x)
+		if c.inBody(o) {
+			return
+		}
+		if st != nil && len(st.Rhs) == 1 {
+			if call, ok := st.Rhs[0].(*ast.CallExpr); ok {
+				if f, ok := call.Fun.(*ast.Ident); ok && f.Name == "append" && len(call.Args) > 0 {
+					if a0, ok := call.Args[0].(*ast.Ident); ok && c.info.ObjectOf(a0) == o {
+						c.collect[o] = x.Name
+						return
+					}
+				}
+			}
+		}
+		c.other("assigns the outer variable " + x.Name)
+	case *ast.IndexExpr:
+		bt := c.info.TypeOf(x.X)
+		if bt != nil {
+			if _, isMap := bt.Underlying().(*types.Map); isMap {
+				if id, ok := x.Index.(*ast.Ident); ok && c.keyObj != nil && c.info.ObjectOf(id) == c.keyObj {
+					c.l.shapes["keyed"] = true
+					return
+				}
+				c.other("writes " + exprString(x) + ", not indexed by the loop key")
+				return
+			}
+			if _, isSlice := bt.Underlying().(*types.Slice); isSlice {
+				if id, ok := x.X.(*ast.Ident); ok {
+					o := c.info.ObjectOf(id)
+					if c.inBody(o) {
+						return
+					}
+					c.collect[o] = id.Name
+					return
+				}
+			}
+		}
+		c.other("writes " + exprString(x))
+	default:
+		c.other("assigns " + exprString(e))
+	}
+}
+
+func (c *classifier) stmts(list []ast.Stmt) {
+	for _, st := range list {
+		switch s := st.(type) {
+		case *ast.AssignStmt:
+			for _, l := range s.Lhs {
+				c.lhs(l, s)
+			}
+		case *ast.IncDecStmt:
+			if id, ok := s.X.(*ast.Ident); ok {
+				if b, ok := c.info.TypeOf(id).Underlying().(*types.Basic); ok && b.Info()&types.IsInteger != 0 {
+					continue // a counter (used as the next free index of a collected slice)
+				}
+			}
+			c.lhs(s.X, nil)
+		case *ast.IfStmt:
+			if s.Init != nil {
+				c.stmts([]ast.Stmt{s.Init})
+			}
+			c.stmts(s.Body.List)
+			if s.Else != nil {
+				c.stmts([]ast.Stmt{s.Else})
+			}
+		case *ast.BlockStmt:
+			c.stmts(s.List)
+		case *ast.DeclStmt:
+		case *ast.BranchStmt:
+			if s.Tok != token.CONTINUE {
+				c.other("early exit (" + s.Tok.String() + ")")
+			}
+		case *ast.ReturnStmt:
+			c.other("early exit (return)")
+		case *ast.ExprStmt:
+			c.other("statement " + exprString(s.X))
+		default:
+			c.other(fmt.Sprintf("statement of kind %T", st))
+		}
+	}
+}
+
+// a call has an effect when it can reach the store, the bank, the listeners or anything else behind a context
+func (c *classifier) impureCall(call *ast.CallExpr) (string, bool) {
+	var id *ast.Ident
+	switch f := call.Fun.(type) {
+	case *ast.Ident:
+		id = f
+	case *ast.SelectorExpr:
+		id = f.Sel
+	default:
+		return exprString(call.Fun), true // a computed function value
+	}
+	o := c.info.Uses[id]
+	switch fo := o.(type) {
+	case *types.Builtin, *types.TypeName, nil:
+		return "", false
+	case *types.Var:
+		return id.Name, true // a closure or a function-typed field
+	case *types.Func:
+		sig := fo.Type().(*types.Signature)
+		if sig.Params().Len() > 0 {
+			pt := sig.Params().At(0).Type().String()
+			if strings.HasSuffix(pt, "context.Context") || strings.HasSuffix(pt, "types.Context") {
+				return id.Name, true
+			}
+		}
+		if r := sig.Recv(); r != nil {
+			rt := r.Type().String()
+			if strings.Contains(rt, "/x/fundraising/keeper.") || strings.Contains(rt, "collections.") ||
+				(strings.Contains(rt, "/x/fundraising/types.") && (strings.HasSuffix(rt, "Keeper") || strings.HasSuffix(rt, "Hooks"))) {
+				return id.Name, true
+			}
+		}
+	}
+	return "", false
+}
+
+func (c *classifier) sortedAfter(o types.Object) bool {
+	found := false
+	ast.Inspect(c.fn.Body, func(n ast.Node) bool {
+		call, ok := n.(*ast.CallExpr)
+		if !ok || call.Pos() < c.rs.End() || len(call.Args) == 0 {
+			return true
+		}
+		sel, ok := call.Fun.(*ast.SelectorExpr)
+		if !ok {
+			return true
+		}
+		if pk, ok := sel.X.(*ast.Ident); !ok || pk.Name != "sort" {
+			return true
+		}
+		if a0, ok := call.Args[0].(*ast.Ident); ok && c.info.ObjectOf(a0) == o {
+			found = true
+		}
+		return true
+	})
+	return found
 }
 
 func main() {
@@ -64,28 +235,32 @@ func main() {
 					if _, isMap := t.Underlying().(*types.Map); !isMap {
 						return true
 					}
-					var sb strings.Builder
-					printer.Fprint(&sb, token.NewFileSet(), rs.X)
-					l := loop{pkg: p.Name, file: fname[strings.LastIndex(fname, "/")+1:], fn: fd.Name.Name, expr: sb.String(), idx: n}
+					l := loop{pkg: p.Name, file: fname[strings.LastIndex(fname, "/")+1:], fn: fd.Name.Name, expr: exprString(rs.X), idx: n, shapes: map[string]bool{}}
 					n++
+					c := &classifier{info: p.TypesInfo, rs: rs, fn: fd, l: &l, collect: map[types.Object]string{}}
+					if k, ok := rs.Key.(*ast.Ident); ok && k.Name != "_" {
+						c.keyObj = p.TypesInfo.ObjectOf(k)
+					}
+					c.stmts(rs.Body.List)
+					for o, name := range c.collect {
+						if c.sortedAfter(o) {
+							l.shapes["collect_sorted"] = true
+						} else {
+							c.other("collects into " + name + ", which is not sorted afterwards")
+						}
+					}
 					seen := map[string]bool{}
 					ast.Inspect(rs.Body, func(x ast.Node) bool {
-						if c, ok := x.(*ast.CallExpr); ok {
-							name := ""
-							switch fun := c.Fun.(type) {
-							case *ast.SelectorExpr:
-								name = fun.Sel.Name
-							case *ast.Ident:
-								name = fun.Name
-							}
-							if name != "" && !seen[name] {
+						if call, ok := x.(*ast.CallExpr); ok {
+							if name, bad := c.impureCall(call); bad && !seen[name] {
 								seen[name] = true
-								l.calls = append(l.calls, name)
+								l.impure = append(l.impure, name)
 							}
 						}
 						return true
 					})
-					sort.Strings(l.calls)
+					sort.Strings(l.impure)
+					sort.Strings(l.reasons)
 					loops = append(loops, l)
 					return true
 				})
@@ -105,25 +280,37 @@ func main() {
 		}
 		return a.idx < b.idx
 	})
+	qs := func(l []string) string {
+		var r []string
+		for _, x := range l {
+			r = append(r, fmt.Sprintf("%q", strings.ReplaceAll(x, "\"", "'")))
+		}
+		return strings.Join(r, "; ")
+	}
 	var sb strings.Builder
 	sb.WriteString("(* GENERATED by harness/cmd/mapcensus from /repo on every run -- do not edit *)\n")
 	sb.WriteString("From Coq Require Import String List.\nImport ListNotations.\nOpen Scope string_scope.\n")
-	sb.WriteString("(* package, file, function, index of the loop in the function, ranged expression, functions called in the body *)\n")
-	sb.WriteString("Definition map_loops : list (string * string * string * nat * string * list string) := [\n")
+	sb.WriteString("(* package, file, function, index of the loop in the function, ranged expression,\n   safe shapes found, reasons it is not (only) of a safe shape, calls with an effect *)\n")
+	sb.WriteString("Definition map_loops : list (string * string * string * nat * string * list string * list string * list string) := [\n")
+	unsafe := 0
 	for i, l := range loops {
-		calls := []string{}
-		for _, c := range l.calls {
-			calls = append(calls, fmt.Sprintf("%q", c))
+		var shapes []string
+		for s := range l.shapes {
+			shapes = append(shapes, s)
+		}
+		sort.Strings(shapes)
+		if len(l.reasons) > 0 || len(l.impure) > 0 || len(shapes) == 0 {
+			unsafe++
 		}
 		sep := ";"
 		if i == len(loops)-1 {
 			sep = ""
 		}
-		fmt.Fprintf(&sb, "  (%q, %q, %q, %d, %q, [%s])%s\n", l.pkg, l.file, l.fn, l.idx, l.expr, strings.Join(calls, "; "), sep)
+		fmt.Fprintf(&sb, "  (%q, %q, %q, %d, %q, [%s], [%s], [%s])%s\n", l.pkg, l.file, l.fn, l.idx, l.expr, qs(shapes), qs(l.reasons), qs(l.impure), sep)
 	}
 	sb.WriteString("].\n")
 	if err := os.WriteFile(out, []byte(sb.String()), 0o644); err != nil {
 		panic(err)
 	}
-	fmt.Printf("%d map-range loops\n", len(loops))
+	fmt.Printf("%d map-range loops, %d not of a safe shape\n", len(loops), unsafe)
 }
